@@ -94,3 +94,35 @@ package provider
 //@   assigns C:bool
 //@   requires p != nil
 //@   ensures sets-insecure: p.insecure && result == nil
+//@
+//@ ## ---- handler entry points: preconditions established by NewIdentityProvider / net/http (A-HTTP) ----
+//@ pure wfIDP(p) = p != nil && p.conf != nil && p.conf.MetadataIDPConfig != nil && p.postTemplate != nil && p.logoutTemplate != nil &&
+//@             p.metadataEndpoint != nil && p.endpoints != nil && p.storage != nil
+//@ pure wfReq(r) = r != nil && r.URL != nil && r.Body != nil
+//@
+//@ func (*provider.IdentityProvider).callbackHandleFunc
+//@   inline
+//@   property C09
+//@   requires wfIDP(p) && wfReq(r) && w != nil
+//@ func (*provider.IdentityProvider).ssoHandleFunc
+//@   inline
+//@   property C09
+//@   requires wfIDP(p) && wfReq(r) && w != nil
+//@ func (*provider.IdentityProvider).logoutHandleFunc
+//@   inline
+//@   property C09
+//@   requires wfIDP(p) && wfReq(r) && w != nil
+//@ func (*provider.IdentityProvider).attributeQueryHandleFunc
+//@   inline
+//@   property C09
+//@   requires wfIDP(p) && wfReq(r) && w != nil
+//@ func (*provider.IdentityProvider).certificateHandleFunc
+//@   inline
+//@   property C09
+//@   requires wfIDP(i) && wfReq(r) && w != nil
+//@
+//@ ## ---- user attributes ----
+//@ func (*provider.Attributes).GetSAML
+//@   inline
+//@   property C09
+//@   loop 1 invariant elements-non-nil: len(#attrs) >= 0 && (forall i :: 0 <= i && i < len(#attrs) ==> #attrs[i] != nil)
